@@ -426,6 +426,10 @@ func (x *run) deriveWith(route string, h *keyset.Handle, ks []dentry, salt []byt
 	// a different salt of the SAME length for the same buffer (hits caches that compare with an uncopied slice)
 	x.seq++
 	follow := len(salt) > 0 && (!vt.Thorough() || x.seq%2 == 0)
+	walk := x.seq%4 == 1 && (!vt.Thorough() || x.seq%16 == 1)
+	var walkSalts [][]byte
+	var walkHs []*keyset.Handle
+	var walkErrs []error
 	other := cp(salt)
 	for i := range other {
 		other[i] ^= 0x5a + byte(i)
@@ -440,6 +444,18 @@ func (x *run) deriveWith(route string, h *keyset.Handle, ks []dentry, salt []byt
 		if follow && e1 == nil && e2 == nil {
 			h3, e3 = call(other) // same deriver, same buffer, other salt
 			h4, e4 = call(salt)  // and the first salt once more
+		}
+		if walk && e1 == nil && e2 == nil && !saltNil {
+			// the SAME deriver walked through the salt-length classes in both directions (growing, shrinking down to
+			// empty, growing again): any per-object scratch buffer or high-water-mark state would show
+			for wi, n := range dpk.Walk(0) {
+				ws := vt.Bytes(x.r, n)
+				if wi%5 == 4 && n <= len(salt) {
+					ws = cp(salt[:n]) // a strict prefix of an earlier, longer salt
+				}
+				wh, werr := call(ws)
+				walkSalts, walkHs, walkErrs = append(walkSalts, ws), append(walkHs, wh), append(walkErrs, werr)
+			}
 		}
 	})
 	ev := func(kind string, s []byte) vt.Ev {
@@ -478,6 +494,16 @@ func (x *run) deriveWith(route string, h *keyset.Handle, ks []dentry, salt []byt
 			g["ok"], g["out"], g["out2"], g["tinkEqual"] = true, proj(h4), o1, handlesEqual(h1, h4)
 		}
 		x.w.Emit(g)
+	}
+	if good && !p {
+		for i, ws := range walkSalts { // each call of the walk is its own event, judged like any DeriveKeyset(ws)
+			f := ev("walk", ws)
+			if walkErrs[i] == nil {
+				o := proj(walkHs[i])
+				f["ok"], f["out"], f["out2"], f["tinkEqual"] = true, o, o, true
+			}
+			x.w.Emit(f)
+		}
 	}
 	if good {
 		return h1, o1
